@@ -6,4 +6,4 @@ cd "$(dirname "$0")"
 /venv/bin/python harness/gen_consts.py || true   # problems with a section are reported by the check that depends on it
 TARGETS=$(/venv/bin/python harness/setup_targets.py)
 cd lean
-lake build $TARGETS
+lake build $TARGETS RpycModel
